@@ -70,8 +70,10 @@ func RunStoreRace(s *kernel.Sim, prop string) *World {
 					hs[n] = h
 				}
 				checkVal("reader", n, h.Get())
-				if i%7 == 0 {
-					time.Sleep(10 * time.Millisecond)
+				if i%5 == 0 {
+					// readers wake together right after the clock has moved on,
+					// often across a second boundary
+					time.Sleep(time.Duration(200+100*(i%4)) * time.Millisecond)
 				}
 			}
 		}(r)
